@@ -213,6 +213,25 @@ class Elab:
             return ("Err", getattr(e0, "variant", "?"))
         return ("unreadable", repr(r)[:80])
 
+    def run_constructor(self, tname, args):
+        """parse_expr_constructor(type, args) with the operands args"""
+        tags = self.TAGS[:len(args)]
+        operands = dict(zip(tags, args))
+        ip = self.interp(operands)
+        fn = self.f.fn("parse_expr_constructor", TY)
+        return self._run(ip, fn, [self.u.type_id(tname), [located(t) for t in tags], self.ctx]), operands
+
+    def elements(self, e):
+        """number of scalar elements of a numeric type (None for others)"""
+        l = self.u.base[self.u.split(e.fields["0"] if e.adt == "ExpressionType" else e)[0]]
+        if l.variant == "Scalar":
+            return 1
+        if l.variant == "Vector":
+            return l.fields["1"]
+        if l.variant == "Matrix":
+            return l.fields["1"] * l.fields["2"]
+        return None
+
     def run_ternary(self, c, l, r):
         ip = self.interp({"C": c, "L": l, "R": r})
         return self._run(ip, self.ternary, [located("C"), located("L"), located("R"), self.ctx])
